@@ -100,6 +100,10 @@ class Extractor:
         self.track_ext = False
         self.track_local_muts = False
         self.probe = None        # optional f(it, S) -> hashable, evaluated on the path state at every return ("probe" token)
+        self.probe3 = None       # optional f(it, S, tokens so far) -> hashable (same, but may look at the path's tokens)
+        self.stop_at = None      # optional f(frame, call terminator) -> bool: end the path before this call ("end", "cut")
+        self.raw_args = False    # call tokens of local callees carry the argument values as a 4th element
+        self.entered = set()     # keys of the callees whose bodies were followed in place
         self.order = []          # read call result SVs in path order (DFS stack discipline)
         self.read_sites = [(self.body.key, bi) for bi, t in self.body.calls() if callee_name(t) in READ_CALLS or callee_name(t) == "std::io::Read::read"]
         self.follow = follow or (lambda callee_body, t: True)
@@ -164,6 +168,13 @@ class Extractor:
             f = f.ret[0] if f.ret else None
         return self.inline_pred(cb, t) if self.inline_pred else True
 
+    def _probe_tokens(self, toks, S):
+        if self.probe is not None:
+            toks = toks + [("probe", self.probe(self.outer.it, S))]
+        if self.probe3 is not None:
+            toks = toks + [("probe", self.probe3(self.outer.it, S, toks))]
+        return toks
+
     def _enter(self, fr, bi, toks, used, exiting, res, S):
         """continue the path inside the callee of block bi's call: parameters are bound to the argument values, memory is shared"""
         body, it = fr.body, fr.it
@@ -172,6 +183,7 @@ class Extractor:
         cit = Interp(self.ctx, cb, None)
         cit.cond = self.it_cond
         cit.site_tag = (fr.it.site_tag, body.key, bi) if getattr(fr.it, "site_tag", None) is not None else (body.key, bi)
+        self.entered.add(cb.key)
         it.cur = (bi, len(body.blocks[bi]["stmts"]))
         it.counter = 0
         args = [it.eval_op(S, a) for a in t["args"]]
@@ -275,9 +287,15 @@ class Extractor:
                                 if pr == (("len",),):
                                     fin.append((fld + ".len", render_value(self.prog, lv, names=nm)))
                 toks = toks + [("final", tuple(sorted(fin)))]
-            if self.probe is not None:
-                toks = toks + [("probe", self.probe(it, S))]
+            toks = self._probe_tokens(toks, S)
             self.paths.append(tuple(toks + [("end", res)]))
+            del self.order[mark:]
+            return
+        if k == "call" and self.stop_at is not None and self.stop_at(fr, t):
+            self.body, self.it = self.outer.body, self.outer.it
+            toks = self._probe_tokens(toks, S)
+            self.paths.append(tuple(toks + [("end", "cut")]))
+            self.body, self.it = fr.body, fr.it
             del self.order[mark:]
             return
         if k == "call" and self._should_inline(fr, t):
@@ -406,7 +424,7 @@ class Extractor:
                         break
                 else:
                     if self.all_local_calls and cb.kind != "closure" and not is_derived(cb) and self.follow(cb, t):
-                        toks.append(("call", cb.pretty, tuple(self.render_arg(S, x) for x in args)))
+                        toks.append(("call", cb.pretty, tuple(self.render_arg(S, x) for x in args)) + ((tuple(args),) if self.raw_args else ()))
         else:
             if name in READ_CALLS:
                 w, n = READ_CALLS[name]
@@ -441,7 +459,7 @@ class Extractor:
                         break
                 else:
                     if cb.kind != "closure" and not is_derived(cb) and self.follow(cb, t) and self.all_local_calls:
-                        toks.append(("call", cb.pretty, tuple(self.render_arg(S, x) for x in args)))
+                        toks.append(("call", cb.pretty, tuple(self.render_arg(S, x) for x in args)) + ((tuple(args),) if self.raw_args else ()))
         return toks
 
     def render_arg(self, S, x):
